@@ -360,25 +360,6 @@ impl TcpBuilder {
         metrics::set_global_recorder(recorder).map_err(Into::into)
     }
 
-    #[cfg(metrics_verif)]
-    /// Builds the exporter and also returns the bound listen address.
-    pub fn verif_build(self) -> Result<(TcpRecorder, SocketAddr), Error> {
-        let buffer_size = self.buffer_size;
-        let (tx, rx) = match buffer_size {
-            None => unbounded(),
-            Some(size) => bounded(size),
-        };
-        let poll = Poll::new()?;
-        let waker = Waker::new(poll.registry(), WAKER)?;
-        let mut listener = TcpListener::bind(self.listen_addr)?;
-        let addr = listener.local_addr()?;
-        poll.registry().register(&mut listener, LISTENER, Interest::READABLE)?;
-        let state = Arc::new(State::new(waker, tx));
-        let recorder = TcpRecorder { state: state.clone() };
-        thread::spawn(move || run_transport(poll, listener, rx, state, buffer_size));
-        Ok((recorder, addr))
-    }
-
     /// Builds and installs the exporter, but returns the recorder.
     ///
     /// In most cases, users should prefer to use [`TcpBuilder::install`] to create and install
